@@ -1,0 +1,81 @@
+//go:build verif
+
+package itemsfetcher
+
+// Machine-checked contracts for /verif (read as text by the VC generator; no code).
+//
+// What is decided here (C16, partial):
+//   [armed]     whenever announced items are pending (the announces cache is not empty) the fetch timer is armed, after
+//               every step of the fetcher's goroutine in every order of notifications, receipts and timer ticks -- the
+//               safety half of "every pending item is requested again within a bounded time" (an unarmed timer with
+//               pending items means they are never looked at again unless a new announcement happens to arrive);
+//   [announced] the request issued when a notification is processed goes through the requester function of that
+//               notification's peer and asks only for items that the interest callback returned for that notification;
+//   received items are forgotten (removed from the cache); the cache stays well-formed and holds announce lists only.
+//@ ghost gReqN int
+//@ ghost gReqFn int
+//@ ghost gReqIds []interface{}
+//@
+//@ // assumed of the application's interest callback: it is a filter (returns only items it was given)
+//@ funcfield Callback.OnlyInterested
+//@   ensures forall(j, 0, len(result), exists(i, 0, len(ids), result[j] == ids[i]))
+//@ funcfield Callback.Suspend
+//@   ensures true
+//@
+//@ inv Fetcher finv(f): f != nil && f.announces != nil && lruinv(f.announces.lru) && f.fetching != nil && f.callback.OnlyInterested != nil && f.callback.Suspend != nil && f.parallelTasks != nil && f.cfg.HashLimit >= 0 &&
+//@   forall(k interface{}, lhas(f.announces.lru, k) ==> typeis(lval(f.announces.lru, k), "[]announceData"))
+//@ spec pending(f *Fetcher) bool = len(f.announces.lru.items) != 0
+//@
+//@ func (*Fetcher).getAnnounces
+//@   requires finv(f)
+//@   modifies lel[f.announces.lru.evictList], lidx[*]
+//@   ensures  finv(f) && len(f.announces.lru.items) == old(len(f.announces.lru.items))
+//@   ensures  [hit] lhas(f.announces.lru, id) ==> result == unbox(lval(f.announces.lru, id), "[]announceData")
+//@   ensures  [miss] !lhas(f.announces.lru, id) ==> len(result) == 0
+//@   ensures  [same] forall(k interface{}, lhas(f.announces.lru, k) == old(lhas(f.announces.lru, k)) && lval(f.announces.lru, k) == old(lval(f.announces.lru, k)))
+//@
+//@ // forgetHash: the item leaves the cache (the eviction callback installed by New also drops it from f.fetching)
+//@ func (*Fetcher).forgetHash
+//@   requires finv(f)
+//@   modifies f.announces.lru.items[id], f.announces.lru.weight, lel[f.announces.lru.evictList], llen[f.announces.lru.evictList], lidx[*], lown[*], nEvict, gEvictKey, gEvictVal, f.fetching[*]
+//@   at call simplewlru.Cache).Remove[1] modifies f.fetching[*]
+//@   ensures  finv(f) && !lhas(f.announces.lru, id) && len(f.announces.lru.items) <= old(len(f.announces.lru.items))
+//@
+//@ // rescheduleFetch: arms the timer if anything is pending; never disarms it
+//@ func (*Fetcher).rescheduleFetch
+//@   requires finv(f) && fetch != nil
+//@   modifies gTimerArmed[fetch]
+//@   ensures  [armed] pending(f) ==> gTimerArmed[fetch]
+//@   ensures  [kept] old(gTimerArmed[fetch]) ==> gTimerArmed[fetch]
+//@   loop 1 invariant true
+//@
+//@ // the request task made by processNotification: exactly one call of the captured requester with the captured items
+//@ funcfield (*Fetcher).processNotification$1.fetchItems
+//@   params ids
+//@   modifies gReqN, gReqFn, gReqIds
+//@   ghost gReqN = old(gReqN) + 1
+//@   ghost gReqFn = fnval
+//@   ghost gReqIds = ids
+//@ func (*Fetcher).processNotification$1
+//@   requires fetchItems != nil
+//@   modifies gReqN, gReqFn, gReqIds
+//@   ensures  gReqN == old(gReqN) + 1 && gReqFn == fetchItems && gReqIds == hashes
+//@
+//@ // processNotification: every interesting item of the notification gets the announce registered in the cache; unless
+//@ // suspended, the items not yet being fetched are requested at once -- through the notification's own requester, and
+//@ // only items the interest callback returned ([announced], the call-site condition of the task hand-over); and if
+//@ // the timer was armed whenever items were pending before, it is so afterwards ([armed])
+//@ func (*Fetcher).processNotification
+//@   requires finv(f) && fetchTimer != nil && notification.fetchItems != nil
+//@   modifies f.announces.lru.items[*], f.announces.lru.weight, lel[f.announces.lru.evictList], llen[f.announces.lru.evictList], lidx[*], lown[*], nEvict, gEvictKey, gEvictVal, all(simplewlru.entry).value, all(simplewlru.entry).weight, f.fetching[*], gTimerArmed[fetchTimer], allelems(announceData)
+//@   at call simplewlru.Cache).Add[1] modifies f.fetching[*]
+//@   at call simplewlru.Cache).Add[1] assumes cwsum(f.announces.lru) <= 9223372036854775807
+//@   at call workers.Workers).Enqueue[1] requires [announced] fetchItems == cur(notification).fetchItems && forall(j, 0, len(hashes), exists(i, 0, len(cur(notification).ids), hashes[j] == cur(notification).ids[i]))
+//@   ensures  finv(f)
+//@   ensures  [armed] (old(pending(f)) ==> old(gTimerArmed[fetchTimer])) ==> (pending(f) ==> gTimerArmed[fetchTimer])
+//@   loop 1 modifies f.announces.lru.items[*], f.announces.lru.weight, lel[f.announces.lru.evictList], llen[f.announces.lru.evictList], lidx[*], lown[*], nEvict, gEvictKey, gEvictVal, all(simplewlru.entry).value, all(simplewlru.entry).weight, f.fetching[*], allelems(announceData), toFetch[*]
+//@   loop 1 invariant arrof(toFetch) == arrof(atentry(toFetch)) || arrfresh(toFetch, _loopalloc)
+//@   loop 1 invariant finv(f) && 0 <= _k && _k <= len(_range)
+//@   loop 1 invariant [subset] forall(j, 0, len(toFetch), exists(i, 0, _k, toFetch[j] == _range[i]))
+//@   loop 1 hint assert _k == iterold(_k) + 1 && len(toFetch) >= iterold(len(toFetch)) && len(toFetch) <= iterold(len(toFetch)) + 1 && forall(j, 0, iterold(len(toFetch)), toFetch[j] == iterold(toFetch[j]))
+//@   loop 1 hint assert len(toFetch) == iterold(len(toFetch)) + 1 ==> toFetch[len(toFetch) - 1] == _range[_k - 1]
